@@ -1018,8 +1018,9 @@ class NamedVariables(UserDict):
     )
 
     def __init__(self, *args, **kws):
-        self._latent_pop_vars = set()
-        self._latent_ind_vars = set()
+        # insertion-ordered (dict keys) so that derived sums do not depend on string hashing
+        self._latent_pop_vars = {}
+        self._latent_ind_vars = {}
         super().__init__(*args, **kws)
 
     def __len__(self):
@@ -1039,9 +1040,9 @@ class NamedVariables(UserDict):
         if isinstance(var, LatentVariable):
             self.update(var.get_regularity_variables(name))
             if isinstance(var, PopulationLatentVariable):
-                self._latent_pop_vars.add(name)
+                self._latent_pop_vars[name] = None
             else:
-                self._latent_ind_vars.add(name)
+                self._latent_ind_vars[name] = None
 
     def __getitem__(self, name: VariableName) -> VariableInterface:
         if name in self.AUTOMATIC_VARS:
